@@ -35,8 +35,10 @@ CONSTANTS
     MaxDials,      \* dial ids = connection ids 1..MaxDials
     Policy,        \* "code" | "any"
     MaxRetry,      \* the code's constant (2)
+    AttemptBound,  \* the contract's bound on attempts / connections per query (4)
     RandomSelect,  \* deviation D2
     LockInOnce,    \* deviation D12 (pinned order)
+    Dev,           \* set of further deviation switches (non-vacuity configs only), {} in every real config
     MaxFaults,     \* bound on Kill actions
     Kinds,         \* subset of {"eof", "silent", "reset"}
     OrderedStart,  \* TRUE: calls start in the order 1, 2, ... (symmetry breaking, leg A only)
@@ -131,13 +133,13 @@ GetIdle(c) ==
     /\ Calm
     /\ pc[c] = "get" /\ tm = "free"
     /\ att' = [att EXCEPT ![c] = @ + 1]
-    /\ IF tclosed
+    /\ IF tclosed /\ "accept_after_close" \notin Dev
          THEN /\ Finish(c, "tclosed")
               /\ failOK' = [failOK EXCEPT ![c] = TRUE]
               /\ UNCHANGED <<isNew, cur, slot, mydial, idle, spawn, dialedFor, shared>>
          ELSE IF idle # {}
            THEN /\ \E x \in idle :
-                     /\ cur' = [cur EXCEPT ![c] = x] /\ idle' = idle \ {x}
+                     /\ cur' = [cur EXCEPT ![c] = x] /\ idle' = IF "idle_kept" \in Dev THEN idle ELSE idle \ {x}
                      \* another call whose reply is still being handed over now shares its connection
                      /\ LET others == {d \in Calls : d # c /\ cur[d] = x /\ pc[d] \in {"writing", "wait", "cweA", "cweB"}} IN
                           shared' = [d \in Calls |-> IF d = c THEN others # {} ELSE shared[d] \/ d \in others]
@@ -236,8 +238,8 @@ SeeClose(c) ==
     /\ Calm
     /\ pc[c] = "wait" /\ closed[cur[c]]
     /\ RandomSelect \/ slot[c] = None
-    /\ pc' = [pc EXCEPT ![c] = "decide"]
-    /\ res' = [res EXCEPT ![c] = "other"]
+    /\ IF "ok_on_close" \in Dev THEN Finish(c, "ok")
+                              ELSE pc' = [pc EXCEPT ![c] = "decide"] /\ res' = [res EXCEPT ![c] = "other"]
     /\ NoH
     /\ UNCHANGED <<att, isNew, cur, slot, ctxDone, mydial, chistVars, connVars, rdrVars, tVars, dialVars, panic>>
 
@@ -278,7 +280,7 @@ CweA_eff(a, x) ==
            /\ once' = [once EXCEPT ![x] = IF @ = FREE THEN a ELSE @]
            /\ UNCHANGED <<conns, idle>>
       ELSE /\ tm = "free"
-           /\ conns' = conns \ {x} /\ idle' = idle \ {x}
+           /\ conns' = conns \ {x} /\ idle' = IF "close_keeps_idle" \in Dev THEN idle ELSE idle \ {x}
            /\ UNCHANGED once
 
 \* returns TRUE in `skipB` position when the body is not ours to run
@@ -356,7 +358,7 @@ Take(x) ==
 ArmIdle(x) ==
     /\ MyTurnR(x)
     /\ rpc[x] = "armIdle"
-    /\ armed' = [armed EXCEPT ![x] = "idle"]
+    /\ armed' = IF "idle_before_arm" \in Dev THEN armed ELSE [armed EXCEPT ![x] = "idle"]
     /\ rpc' = [rpc EXCEPT ![x] = "setIdle"]
     /\ H([a |-> "SetReadDeadline", x |-> x, k |-> "idle"])
     /\ UNCHANGED <<callVars, chistVars, health, closed, once, waiting, srvq, owe, rmsg, rw, tVars, dialVars, panic>>
@@ -378,8 +380,10 @@ Hand(x) ==
          slot' = IF rw[x] = Tok(c) /\ pc[c] \notin {"na", "done", "get", "dialWait", "install"}
                    THEN [slot EXCEPT ![c] = rmsg[x]] ELSE slot
     /\ rpc' = [rpc EXCEPT ![x] = "reading"]
+    /\ armed' = IF "idle_before_arm" \in Dev THEN [armed EXCEPT ![x] = "idle"] ELSE armed
     /\ NoH
-    /\ UNCHANGED <<pc, att, isNew, cur, ctxDone, res, mydial, chistVars, connVars, rmsg, rw, tVars, dialVars, panic>>
+    /\ UNCHANGED <<pc, att, isNew, cur, ctxDone, res, mydial, chistVars, health, closed, once, waiting, srvq, owe,
+                   rmsg, rw, tVars, dialVars, panic>>
 
 \* k: "err" (EOF, reset, short frame, garbage length ...) needs a dead peer or a locally closed conn;
 \*    "timeout" needs an armed deadline (virtual time: any armed deadline may expire)
@@ -492,7 +496,7 @@ TCloseOne(x) ==
 
 TCloseEnd ==
     /\ Calm
-    /\ cl = "locked" /\ conns = {}
+    /\ cl = "locked" /\ (conns = {} \/ "close_skips" \in Dev)
     /\ tctx' = TRUE /\ tm' = "free" /\ cl' = "done"
     /\ H([a |-> "TCloseRet"])
     /\ UNCHANGED <<callVars, chistVars, connVars, rdrVars, tclosed, conns, idle, dialVars, panic>>
@@ -538,13 +542,15 @@ Next ==
 
 Spec == Init /\ [][Next]_vars
 
-FairSpec ==
-    /\ Spec
-    /\ \A c \in Calls : WF_vars(CallProgress(c)) /\ WF_vars(DialInvoke(c))
-    /\ \A x \in ConnIds : WF_vars(RdrStep(x)) /\ WF_vars(DialStep(x)) /\ WF_vars(DialRet(x))
-                          /\ WF_vars(ReadFail(x, "err"))
-                          /\ WF_vars(owe[x] /\ ReadFail(x, "timeout"))
-    /\ WF_vars(CloserStep)
+\* Every process takes finitely many steps (bounded attempts, one reply per written query), so weak
+\* fairness of the disjunction of all progress steps is equivalent to per-process weak fairness, and far
+\* cheaper for TLC.  Not fair: Start, Cancel, Kill, TCloseStart, ServerReply (silence), idle timeouts.
+Progress ==
+    \/ \E c \in Calls : CallProgress(c) \/ DialInvoke(c)
+    \/ \E x \in ConnIds : RdrStep(x) \/ DialStep(x) \/ DialRet(x) \/ ReadFail(x, "err")
+                            \/ (owe[x] /\ ReadFail(x, "timeout"))
+    \/ CloserStep
+FairSpec == Spec /\ WF_vars(Progress)
 
 ------------------------------------------------------------------------------
 \* properties
@@ -554,7 +560,7 @@ Failed(c) == Ended(c) /\ res[c] # "ok"
 
 \* C08
 FailOnlyWhen == \A c \in Calls : Failed(c) => failOK[c]
-AttemptsBounded == \A c \in Calls : att[c] <= 4 /\ writes[c] <= att[c] /\ Cardinality(used[c]) <= 4 /\ writes[c] <= 4
+AttemptsBounded == \A c \in Calls : att[c] <= AttemptBound /\ writes[c] <= att[c] /\ Cardinality(used[c]) <= AttemptBound
 \* C02 (reuse part): a reply that was read for the current attempt is returned
 \* (exempt: the connection was taken from the idle pool by another call before the reply was handed over --
 \*  readLoop calls setIdle before the hand-over on purpose; NoLossStrict documents that window)
